@@ -55,7 +55,14 @@ class Composed:
 
     def materialise(self):
         """Write everything below a fresh directory that is put on sys.path; -> main path."""
-        self.root = tempfile.mkdtemp(prefix="zcv-comp-")
+        if getattr(self, "fixed_root", False):
+            # one directory per process, emptied and filled again: the same path names (and URLs)
+            # carry other contents from one case to the next
+            self.root = os.path.join(tempfile.gettempdir(), "zcv-comp-fixed-%d" % os.getpid())
+            shutil.rmtree(self.root, ignore_errors=True)
+            os.makedirs(self.root)
+        else:
+            self.root = tempfile.mkdtemp(prefix="zcv-comp-")
         for rel, text in self.files.items():
             p = os.path.join(self.root, *rel.split("/"))
             os.makedirs(os.path.dirname(p), exist_ok=True)
